@@ -26,7 +26,7 @@ func (c *Ctx) ConstIndexGuarded(prop string) {
 			strings.HasSuffix(p, "/services/signer/standard") || strings.HasSuffix(p, "/services/lister/standard") ||
 			strings.HasSuffix(p, "/services/accountmanager/standard") || strings.HasSuffix(p, "/services/walletmanager/standard") ||
 			strings.HasSuffix(p, "/services/ruler/golang") || strings.HasSuffix(p, "/rules/standard") || strings.HasSuffix(p, "/services/checker/static") ||
-			strings.HasSuffix(p, "/services/fetcher/mem")
+			strings.HasSuffix(p, "/services/fetcher/mem") || strings.HasSuffix(p, "/services/api/grpc/interceptors")
 	}
 	for _, fn := range c.P.ModuleFuncs() {
 		p := prog.PkgPathOf(fn)
@@ -94,6 +94,14 @@ func (c *Ctx) ConstIndexGuarded(prop string) {
 					case *ssa.Call:
 						f := x.Call.StaticCallee()
 						return f != nil && strings.HasPrefix(f.Name(), "Get") && f.Signature.Recv() != nil && strings.Contains(prog.PkgPathOf(f), "/pb")
+					case *ssa.UnOp:
+						// in the interceptors: a list that is a field of what the peer presented (certificates, their names,
+						// metadata values) - its length is the peer's choice
+						if strings.HasSuffix(p, "/services/api/grpc/interceptors") {
+							if owner, _, _ := an.FieldOf(x); owner != nil {
+								return true
+							}
+						}
 					case *ssa.MakeSlice:
 						// made with the length of a request-sized list
 						if lc, ok := x.Len.(*ssa.Call); ok && isBuiltin(lc, "len") {
